@@ -211,7 +211,7 @@ end
 /-! ### Macros with the default `eval` / `expand` (`kernel/macro.py`) -/
 
 /-- `ProofTerm.sorry(th)` -/
-def sorryLeaf (th : Seq) : PT := .node "sorry" 0 [] th
+def gapLeaf (th : Seq) : PT := .node "gap" 0 [] th
 
 /-- Proof-term templates: what `get_proof_term` builds when it uses its premises only through
 their sequents — a tree whose leaves `prem i` stand for the `i`-th premise. -/
@@ -231,7 +231,7 @@ end
 
 /-- Default `Macro.eval`: `get_proof_term(args, [ProofTerm.sorry(th) ...]).th`. -/
 def evalDefault (gpt : Nat → List PT → PT) (args : Nat) (ths : List Seq) : Seq :=
-  (gpt args (ths.map sorryLeaf)).th
+  (gpt args (ths.map gapLeaf)).th
 
 /-- Default `Macro.expand`: `get_proof_term(args, [ProofTerm.atom(id, th) ...]).export(prefix)`. -/
 def expandDefault (same : Seq → Seq → Bool) (gpt : Nat → List PT → PT) (pfx : ItemId) (args : Nat)
